@@ -214,6 +214,137 @@ theorem duplicate_edge_noop (N : Nat) (u u' : UF) (hwf : WF u N) (x y : Nat) (hx
   obtain rfl : u' = u'' := by simpa using h''
   exact ⟨UF.union_sameRoot inc' hs, UF.union_sameRoot inc' hs.symm⟩
 
+/-! ## 5. The bright-field embedding -/
+
+/-- **bf-overlap** — the grid-level body of `unwrap_bf_overlap_phase_torch` (`bfUnwrapGrid`:
+`mask_grid.any()` test, `max - min > π` test, first pass on `phase_grid * mask_grid` with the
+mask, optional second pass on the masked result), for every grid, mask, `two_pass`, wrap-around
+setting and merge orders: it terminates, and whichever branch is taken the returned grid differs
+from the truth by one constant on each connected region of the overlap mask — provided the
+stored phases are the wrapped truth INSIDE the mask (outside they are arbitrary: the embedding
+puts zeros there) and the truth is Itoh on the masked neighbour pairs.  The second pass is an
+instance of `unwrap_idempotent_smooth`; when no pass runs (`max - min ≤ π`) no neighbour pair can
+hide a wrap.  (The scatter `phase_grid[bf_mask] = …` and gather `phase_grid[bf_mask]` around this
+body are plain indexing and are tied by the correspondence run only.) -/
+theorem bf_overlap_correct (half : ℝ) (hh : 0 < half) (H W : Nat) (m : Nat → Bool) (wrap twoPass : Bool)
+    (g0 φ : Nat → ℝ) (n : Nat → ℤ) (order1 order2 : List (Nat × Nat))
+    (hp1 : order1.Perm (maskedPairs H W m wrap)) (hp2 : order2.Perm (maskedPairs H W m wrap))
+    (hwrap : IsWrapOn half (fun i => i < H * W ∧ m i = true) g0 φ n)
+    (hitoh : ∀ p ∈ maskedPairs H W m wrap, |φ p.1 - φ p.2| < half) :
+    ∃ br g, bfUnwrapGrid half H W g0 m twoPass order1 order2 = some (br, g) ∧
+      ∀ a b, a < H * W → b < H * W → m a = true → m b = true →
+        Conn (maskedPairs H W m wrap) a b → g a - φ a = g b - φ b := by
+  unfold bfUnwrapGrid
+  simp only
+  split
+  · -- `mask_grid.any()` is false: there is no mask pixel
+    rename_i hany
+    refine ⟨_, _, rfl, ?_⟩
+    intro a b ha _ hma
+    simp only [Bool.not_eq_eq_eq_not, Bool.not_true, List.any_eq_false, List.mem_range] at hany
+    exact absurd hma (by simpa using hany a ha)
+  split
+  · -- `max - min <= pi`: the raw phases are returned; no neighbour pair can hide a wrap
+    rename_i _ hsmall
+    refine ⟨_, _, rfl, ?_⟩
+    have hspan : maxList ((List.range (H * W)).map g0) - minList ((List.range (H * W)).map g0) ≤ half := by
+      have : ¬ half < maxList ((List.range (H * W)).map g0) - minList ((List.range (H * W)).map g0) := by
+        intro hlt
+        have h := (NumReal.ltb_eq _ _).mpr hlt
+        rw [NumReal.sub_eq] at hsmall
+        simp [h] at hsmall
+      exact not_lt.mp this
+    have hpair : ∀ p ∈ maskedPairs H W m wrap, g0 p.1 - φ p.1 = g0 p.2 - φ p.2 := by
+      intro p hp
+      have hl := maskedPairs_lt H W m wrap p hp
+      have hm := maskedPairs_mask H W m wrap p hp
+      obtain ⟨e1, _⟩ := hwrap p.1 ⟨hl.1, hm.1⟩
+      obtain ⟨e2, _⟩ := hwrap p.2 ⟨hl.2, hm.2⟩
+      have hmem : ∀ i, i < H * W → g0 i ∈ (List.range (H * W)).map g0 :=
+        fun i hi => List.mem_map.mpr ⟨i, List.mem_range.mpr hi, rfl⟩
+      have b1 := le_maxList (hmem _ hl.1)
+      have b2 := minList_le (hmem _ hl.1)
+      have b3 := le_maxList (hmem _ hl.2)
+      have b4 := minList_le (hmem _ hl.2)
+      obtain ⟨i1, i2⟩ := abs_lt.mp (hitoh p hp)
+      -- 2·half·(n₁ - n₂) = (φ₁ - φ₂) - (g₁ - g₂) lies strictly between ±2·half
+      have hk : n p.1 = n p.2 := by
+        have hlt : ((n p.1 - n p.2 : ℤ) : ℝ) < 1 := by
+          by_contra hc
+          have hc : (1 : ℝ) ≤ ((n p.1 - n p.2 : ℤ) : ℝ) := not_lt.mp hc
+          push_cast at hc
+          nlinarith
+        have hgt : (-1 : ℝ) < ((n p.1 - n p.2 : ℤ) : ℝ) := by
+          by_contra hc
+          have hc : ((n p.1 - n p.2 : ℤ) : ℝ) ≤ -1 := not_lt.mp hc
+          push_cast at hc
+          nlinarith
+        have h1 : n p.1 - n p.2 < 1 := by exact_mod_cast hlt
+        have h2 : -1 < n p.1 - n p.2 := by exact_mod_cast hgt
+        omega
+      rw [e1, e2, hk]; ring
+    intro a b _ _ _ _ hconn
+    unfold Conn at hconn
+    clear * - hconn hpair
+    induction hconn with
+    | rel x y hxy => exact hpair (x, y) hxy
+    | refl x => rfl
+    | symm x y _ ih => exact ih.symm
+    | trans x y z _ _ ih1 ih2 => exact ih1.trans ih2
+  -- first pass on `phase_grid * mask_grid`
+  have hwrap1 : IsWrapOn half (fun i => i < H * W ∧ m i = true)
+      (fun i => if m i = true then g0 i else Num.zero) φ n := by
+    intro i hi
+    have := hwrap i hi
+    simpa [hi.2] using this
+  obtain ⟨o1, ho1, hlen1, hc1⟩ := unwrap_correct_grid half hh H W m wrap φ _ n order1 hp1 hwrap1 hitoh
+  rw [ho1]
+  simp only
+  have hg1 : ∀ a b, a < H * W → b < H * W → m a = true → m b = true →
+      Conn (maskedPairs H W m wrap) a b →
+      (if m a = true then o1.getD a Num.zero else Num.zero) - φ a =
+        (if m b = true then o1.getD b Num.zero else Num.zero) - φ b := by
+    intro a b ha hb hma hmb hconn
+    simp only [hma, hmb, if_true]
+    have := hc1 a b ha hb hconn
+    simpa [NumReal.zero_eq] using this
+  cases twoPass with
+  | false => exact ⟨_, _, rfl, hg1⟩
+  | true =>
+    simp only [Bool.not_true, Bool.false_eq_true, if_false]
+    -- second pass: the input is already unwrapped and Itoh-smooth on every pair used
+    have hin2 : ∀ p ∈ order2, p.1 < H * W ∧ p.2 < H * W :=
+      fun p hp => maskedPairs_lt H W m wrap p (hp2.mem_iff.mp hp)
+    have hitoh2 : ∀ p ∈ order2,
+        |(fun i => if m i = true then o1.getD i Num.zero else Num.zero) p.1 -
+          (fun i => if m i = true then o1.getD i Num.zero else Num.zero) p.2| < half := by
+      intro p hp
+      have hp' := hp2.mem_iff.mp hp
+      have hl := maskedPairs_lt H W m wrap p hp'
+      have hm := maskedPairs_mask H W m wrap p hp'
+      have hconn : Conn (maskedPairs H W m wrap) p.1 p.2 := Relation.EqvGen.rel _ _ hp'
+      have := hg1 p.1 p.2 hl.1 hl.2 hm.1 hm.2 hconn
+      have h2 := hitoh p hp'
+      simp only at this ⊢
+      have e : (if m p.1 = true then o1.getD p.1 Num.zero else Num.zero) -
+          (if m p.2 = true then o1.getD p.2 Num.zero else Num.zero) = φ p.1 - φ p.2 := by linarith
+      rw [e]; exact h2
+    obtain ⟨o2, c, ho2, hlen2, hout2⟩ := unwrap_idempotent_smooth half (H * W)
+      (fun i => if m i = true then o1.getD i Num.zero else Num.zero) order2 hin2 hitoh2
+    have ho2' : unwrapPhase2d half H W (fun i => if m i = true then o1.getD i Num.zero else Num.zero) order2 = some o2 := ho2
+    rw [ho2']
+    refine ⟨_, _, rfl, ?_⟩
+    intro a b ha hb hma hmb hconn
+    simp only [hma, hmb, if_true]
+    have e1 := hout2 a ha
+    have e2 := hout2 b hb
+    have e3 := hg1 a b ha hb hma hmb hconn
+    simp only [hma, hmb, if_true] at e1 e2 e3
+    have z : (Num.zero : ℝ) = 0 := NumReal.zero_eq
+    rw [z] at e1 e2 e3 ⊢
+    rw [e1, e2]
+    linarith
+
 /-! ## Non-vacuity -/
 
 /-- the grids that produce self-loops and duplicate edges -/
@@ -246,5 +377,15 @@ example : (unionAll (UF.init 4) [⟨2, 3, 0⟩, ⟨0, 1, 0⟩, ⟨1, 2, -1⟩]).
 example : ∀ e ∈ [(⟨2, 3, 0⟩ : Edge), ⟨0, 1, 0⟩, ⟨1, 2, -1⟩],
     e.inc = (fun i => if i < 2 then (0 : Int) else 1) e.i1 - (fun i => if i < 2 then (0 : Int) else 1) e.i2 := by
   decide
+
+/-- the executable model (run at `Rat`, `half = 1`, as the driver does) on that ramp: the wrapped
+input 0, 3/4, -1/2, 1/4 comes back as the ramp 0, 3/4, 3/2, 9/4 minus its mean -/
+example : unwrapPhase2d (1 : Rat) 1 4 (fun i => #[0, 3/4, -1/2, 1/4].getD i 0) [(2, 3), (0, 1), (1, 2)]
+    = some [-9/8, -3/8, 3/8, 9/8] := by decide +kernel
+
+/-- … and through the bright-field body with all four pixels in the overlap mask: both passes run -/
+example : (bfUnwrapGrid (1 : Rat) 1 4 (fun i => #[0, 3/4, -1/2, 1/4].getD i 0) (fun _ => true) true
+      [(2, 3), (0, 1), (1, 2)] [(0, 1), (1, 2), (2, 3)]).map (fun r => (r.1, (List.range 4).map r.2))
+    = some (.twoPass, [-9/8, -3/8, 3/8, 9/8]) := by decide +kernel
 
 end QuantemModel.Props.C17
